@@ -99,17 +99,34 @@ def _node(draw, sizes, m, depth):
         return {"k": "bin", "f": draw(st.sampled_from(list("+-*/^"))), "l": draw(_node(sizes, m, depth - 1)),
                 "r": draw(_node(sizes, m, depth - 1)), "size": m}
     if kind == "binc":
-        f = draw(st.sampled_from(list("+-*/^")))
-        if draw(st.booleans()):
-            c = draw(st.sampled_from([2.0, 3.0, -1.0, 0.5, -2.0, 1.5, 2])) if f == "^" else draw(
-                st.one_of(_f(-3, 3), st.integers(-3, 3)))
+        f = draw(st.sampled_from(list("+-*/^^^")))
+        zero = None
+        if f == "^":
+            # scalar / array exponents; integer exponents >= 1 make the power smooth on the whole real line, so the
+            # base may then contain an entry that is exactly zero
+            mode = draw(st.sampled_from(["scalar", "scalar", "array-float", "array-int", "array-int-zero", "scalar-int-zero"]))
+            if mode == "scalar":
+                c = draw(st.sampled_from([2.0, 3.0, -1.0, 0.5, -2.0, 1.5, 2]))
+            elif mode == "scalar-int-zero":
+                c = draw(st.sampled_from([2.0, 3.0, 2]))
+            elif mode == "array-float":
+                c = [draw(_f(-2, 2)) for _ in range(m)]
+            else:
+                c = [float(draw(st.integers(1, 3))) for _ in range(m)]
+            if mode.endswith("zero"):
+                zero = draw(st.integers(0, m - 1))
+        elif draw(st.booleans()):
+            c = draw(st.one_of(_f(-3, 3), st.integers(-3, 3)))
             if f == "/" and abs(c) < 0.2:
                 c = 0.7
         else:
             c = [draw(_f(-2, 2)) for _ in range(m)]
             if f == "/":
                 c = [x if abs(x) > 0.2 else 0.5 for x in c]
-        return {"k": "binc", "f": f, "c": c, "a": draw(_node(sizes, m, depth - 1)), "size": m}
+        nd = {"k": "binc", "f": f, "c": c, "a": draw(_node(sizes, m, depth - 1)), "size": m}
+        if zero is not None:
+            nd["zero"] = zero  # base entry that is exactly 0
+        return nd
     if kind == "rbin":
         f = draw(st.sampled_from(list("+-*/^")))
         c = draw(_f(0.3, 3.0)) if f == "^" else draw(st.one_of(_f(-3, 3), st.integers(-3, 3)))
@@ -271,8 +288,22 @@ class Evaluator:
                 if ad:
                     self.kinds.add("binc-" + ("arr" if isinstance(c, list) else type(c).__name__))
                 if f == "^":
-                    integral = (not isinstance(c, list)) and float(c) == int(c) and c >= 2
+                    integral = (all(float(x) == int(x) and x >= 1 for x in c) if isinstance(c, list)
+                                else float(c) == int(c) and c >= 2)
                     l = self._affine(path + "b", l, -3.0, 3.0, ad) if integral else self._affine(path + "b", l, 0.5, 2.0, ad)
+                    if integral and nd.get("zero") is not None:
+                        j = nd["zero"] % nd["size"]
+
+                        def off_fn(v, j=j):
+                            o = np.zeros_like(np.asarray(v, dtype=float))
+                            o[j] = -np.asarray(v, dtype=float)[j]
+                            return o
+
+                        l = self._offset(path + "z", l, off_fn, ad)
+                        if ad:
+                            self.kinds.add("pow-zero-base")
+                            if isinstance(c, list):
+                                self.kinds.add("pow-zero-base-array")
             else:
                 r = self.ev(nd["a"], X, ad, path + "a")
                 l = nd["c"]
